@@ -148,6 +148,11 @@ func c04Labels(d ssaDoc, r *ssaRendering) (bool, []string) {
 	add(hetero, "heterogeneous-style-columns")
 	add(len(d.Info) > 0, "script-info")
 	add(d.Info["ScriptType"] == "v4.00+", "v4plus-scripttype")
+	for _, e := range d.Events {
+		for _, l := range e.Lines {
+			add(len(l) == 0, "empty-line")
+		}
+	}
 	if r != nil {
 		add(fmt.Sprint(r.StyleCols) != fmt.Sprint(append([]string{"Name"}, filterCols(r.StyleCols)...)), "permuted-style-columns")
 		add(r.ColorMode > 0, "hex-or-negative-colour")
@@ -195,10 +200,24 @@ func filterCols(cols []string) []string {
 	return out
 }
 
+// addEmptySSALines gives some events an empty line: two \\N in a row, a text starting or ending with \\N.
+func addEmptySSALines(t *rapid.T, d *ssaDoc) {
+	for i := range d.Events {
+		e := &d.Events[i]
+		if rapid.IntRange(0, 3).Draw(t, "emptyline") == 0 {
+			at := rapid.IntRange(0, len(e.Lines)).Draw(t, "emptyat")
+			ls := append([][]ssaRun(nil), e.Lines[:at]...)
+			ls = append(ls, []ssaRun{})
+			e.Lines = append(ls, e.Lines[at:]...)
+		}
+	}
+}
+
 func TestC04(t *testing.T) {
 	runWitnesses(t, "C04")
 	rapidCheck(t, "C04/read", tier(3000, 300000), func(rt *rapid.T) {
 		doc, cols := genSSADoc(rt, false)
+		addEmptySSALines(rt, &doc)
 		c := c04ReadCase{Doc: doc, Rend: genSSARendering(rt, cols)}
 		b := renderSSA(c.Doc, c.Rend)
 		nt, ls := c04Labels(c.Doc, &c.Rend)
@@ -210,6 +229,7 @@ func TestC04(t *testing.T) {
 	})
 	rapidCheck(t, "C04/write", tier(2000, 200000), func(rt *rapid.T) {
 		doc, _ := genSSADoc(rt, true)
+		addEmptySSALines(rt, &doc)
 		c := c04WriteCase{Doc: doc}
 		nt, ls := c04Labels(c.Doc, nil)
 		ev.Case(nt, fmt.Sprintf("w%v", c), append(ls, "write")...)
